@@ -600,11 +600,11 @@ func (d staticDiscovery) Resolve(id transport.NodeID) (string, error) {
 }
 
 func genStress(r *rand.Rand, tier string) input {
-	n := 16 + r.IntN(24)
+	n := 32 + r.IntN(33)
 	if tier == "thorough" {
 		n = 40 + r.IntN(120)
 	}
-	st := &stress{Salt: r.Uint32(), Conc: 2 + r.IntN(10), Pool: 1 + r.IntN(3)}
+	st := &stress{Salt: r.Uint32(), Conc: vh.Pick(r, 4, 8, 16, 16, 32), Pool: vh.Pick(r, 0, 0, 1, 1, 2)}
 	for i := 0; i < n; i++ {
 		c := stressCall{Mode: vh.Pick(r, uint8(0), 0, 0, 1, 2, 2), SleepMS: uint8(r.IntN(6))}
 		switch r.IntN(5) {
@@ -623,6 +623,55 @@ func genStress(r *rand.Rand, tier string) input {
 
 func runStress(in input) vh.Result {
 	st := in.Stress
+	var doCall func(ctx context.Context, i int, req []byte) ([]byte, error)
+	var reset func()
+	if st.Pool == 0 {
+		// conn.Conn directly over a synchronous pipe; the peer answers every request
+		// frame with the handler's reply under the same request id, from several
+		// goroutines so that responses overtake each other
+		clientEnd, serverEnd := net.Pipe()
+		limits := core.Limits{MaxFrameBodyBytes: 1 << 16, MaxQueuedBytesPerConn: 1 << 20, MaxQueuedItemsPerConn: 1024,
+			MaxBatchBytes: 1 << 16, MaxBatchFrames: 16}
+		c := conn.New(clientEnd, conn.Config{Limits: limits, NodeID: 2}, nil)
+		c.Start()
+		defer c.Close(nil)
+		defer serverEnd.Close()
+		var wmu sync.Mutex
+		go func() {
+			for {
+				f, err := wire.ReadFrame(serverEnd, limits.MaxFrameBodyBytes)
+				if err != nil {
+					return
+				}
+				payload := append([]byte(nil), f.Body.Bytes()...)
+				f.Body.Release()
+				hdr := f.Header
+				go func() {
+					if len(payload) != 10 {
+						return
+					}
+					nonce, mode, sleep := payload[:8], payload[8], payload[9]
+					status, body := wire.ResponseOK, append([]byte("R"), nonce...)
+					switch mode {
+					case 1:
+						status, body = wire.ResponseErr, append([]byte("E"), nonce...)
+					case 2:
+						time.Sleep(time.Duration(sleep) * time.Millisecond)
+					}
+					hdr.Kind = core.FrameKindRPCResponse
+					wmu.Lock()
+					defer wmu.Unlock()
+					_ = serverEnd.SetWriteDeadline(time.Now().Add(time.Second))
+					_ = wire.WriteFrame(serverEnd, wire.Frame{Header: hdr, Body: core.CopyOwnedBuffer(append([]byte{status}, body...))}, limits.MaxFrameBodyBytes)
+				}()
+			}
+		}()
+		doCall = func(ctx context.Context, i int, req []byte) ([]byte, error) {
+			return c.Call(ctx, conn.Outbound{Priority: core.PriorityRPC, ServiceID: 7, Payload: core.CopyOwnedBuffer(req)})
+		}
+		reset = func() {} // a pipe cannot be re-dialled; resets are exercised by the loopback mode
+		return stressCalls(st, doCall, reset)
+	}
 	limits := transport.DefaultLimits()
 	server, err := transport.NewServer(transport.ServerConfig{NodeID: 2, Limits: limits})
 	if err != nil {
@@ -655,13 +704,20 @@ func runStress(in input) vh.Result {
 	}
 	defer client.Stop()
 
+	doCall = func(ctx context.Context, i int, req []byte) ([]byte, error) {
+		return client.Call(ctx, 2, uint64(i%max(st.Pool, 1)), transport.PriorityRPC, 7, req)
+	}
+	reset = func() { client.ClosePeer(2) }
+	return stressCalls(st, doCall, reset)
+}
+
+func stressCalls(st *stress, doCall func(ctx context.Context, i int, req []byte) ([]byte, error), reset func()) vh.Result {
 	type out struct {
 		payload []byte
 		err     error
 	}
 	outs := make([]out, len(st.Calls))
 	nonces := make([][]byte, len(st.Calls))
-	sem := make(chan struct{}, max(st.Conc, 1))
 	var wg sync.WaitGroup
 	done := make(chan struct{})
 	go func() { // connection resets
@@ -673,31 +729,42 @@ func runStress(in input) vh.Result {
 			case <-done:
 				return
 			case <-time.After(time.Until(begin.Add(time.Duration(ms) * time.Millisecond))):
-				client.ClosePeer(2)
+				reset()
 			}
 		}
 	}()
-	for i, call := range st.Calls {
-		nonce := binary.BigEndian.AppendUint32(binary.BigEndian.AppendUint32(nil, st.Salt), uint32(i))
-		nonces[i] = nonce
-		wg.Add(1)
-		sem <- struct{}{}
-		go func(i int, call stressCall) {
-			defer wg.Done()
-			defer func() { <-sem }()
-			ctx, cancel := context.WithTimeout(context.Background(), 3*time.Second)
-			if call.TimeoutMS > 0 {
-				ctx, cancel = context.WithTimeout(context.Background(), time.Duration(call.TimeoutMS)*time.Millisecond)
-			}
-			defer cancel()
-			if call.CancelMS > 0 {
-				t := time.AfterFunc(time.Duration(call.CancelMS)*time.Millisecond, cancel)
-				defer t.Stop()
-			}
-			req := append(append([]byte(nil), nonce...), call.Mode, call.SleepMS)
-			p, err := client.Call(ctx, 2, uint64(i), transport.PriorityRPC, 7, req)
-			outs[i] = out{p, err}
-		}(i, call)
+	// calls go out in bursts: every goroutine of a burst is released by the same
+	// gate, so that Call is entered (request id allocation, Store) truly concurrently
+	conc := max(st.Conc, 1)
+	for base := 0; base < len(st.Calls); base += conc {
+		gate := make(chan struct{})
+		var burst sync.WaitGroup
+		for i := base; i < min(base+conc, len(st.Calls)); i++ {
+			call := st.Calls[i]
+			nonce := binary.BigEndian.AppendUint32(binary.BigEndian.AppendUint32(nil, st.Salt), uint32(i))
+			nonces[i] = nonce
+			wg.Add(1)
+			burst.Add(1)
+			go func(i int, call stressCall) {
+				defer wg.Done()
+				defer burst.Done()
+				ctx, cancel := context.WithTimeout(context.Background(), 400*time.Millisecond)
+				if call.TimeoutMS > 0 {
+					ctx, cancel = context.WithTimeout(context.Background(), time.Duration(call.TimeoutMS)*time.Millisecond)
+				}
+				defer cancel()
+				req := append(append([]byte(nil), nonce...), call.Mode, call.SleepMS)
+				<-gate
+				if call.CancelMS > 0 {
+					t := time.AfterFunc(time.Duration(call.CancelMS)*time.Millisecond, cancel)
+					defer t.Stop()
+				}
+				p, err := doCall(ctx, i, req)
+				outs[i] = out{p, err}
+			}(i, call)
+		}
+		close(gate)
+		burst.Wait()
 	}
 	wg.Wait()
 	close(done)
